@@ -46,6 +46,9 @@ def cases(tier, seed):
             for gi, g in enumerate(GAMMAS):
                 out.append(('ITML/%s/%s/gamma=%s' % (dsn, pr, g), ('itml', dsn, pr, g, b['K'], seed)))
             out.append(('ITML_Supervised/%s/%s' % (dsn, pr), ('sup', dsn, pr, b['K'], seed)))
+    # features in badly matched units (first feature x 2^9, second x 2^-9: exact), with the prior that suits such data
+    for g in (0.1, 1.0, 10.0):
+        out.append(('ITML/S2*mixed_units/covariance/gamma=%s' % g, ('itml', 'S2*mixed_units', 'covariance', g, b['K'], seed)))
     return out
 
 
@@ -132,7 +135,14 @@ def run_case(spec):
              'states_judged_for_identity': 0, 'states_ill_conditioned_not_judged': 0, 'converged_states': 0}
     kind, dsn, pr = spec[0], spec[1], spec[2]
     seed = spec[-1]
-    if dsn.endswith('*2^-30'):          # the same well-conditioned data expressed in tiny units (exact scaling)
+    if dsn.endswith('*mixed_units'):
+        base = data.dataset(dsn.split('*')[0])
+        Dv = np.ones(base.d)
+        Dv[0], Dv[1] = 2.0 ** 9, 2.0 ** -9
+        ds = data.scaled(base, 1.0)
+        ds.X = base.X * Dv
+        ds.pairs = ds.X[base.pairs_idx]
+    elif dsn.endswith('*2^-30'):          # the same well-conditioned data expressed in tiny units (exact scaling)
         ds = data.scaled(data.dataset(dsn.split('*')[0]), 2.0 ** -30)
     else:
         ds = data.dataset('R', seed) if dsn == 'R' else data.dataset(dsn)
